@@ -336,7 +336,7 @@ ALLOWED_COERCIONS = {
 }
 SAFE_RENDER = {
     "str": {"repr", "ascii"},
-    "ident": {"str", "repr", "ascii"},
+    "ident": {"str", "repr", "ascii", "str|repr-inner", "repr|repr-inner", "ascii|repr-inner"},   # [A-Za-z0-9_] is unchanged inside quotes
     "int": {"str", "repr", "ascii", "json"},
     "float": {"str", "repr", "ascii", "json"},
 }
@@ -978,6 +978,11 @@ def rule_locals_shadow_fields(ctx: Ctx, rid, kinds=("def", "assign"), consequenc
                 if nme not in own:
                     bound.setdefault(nme, "a local assignment")
     base = f"{GEN}:PythonCodeGen.generate"
+    # a name the lexer never delivers as an identifier (a keyword of the DSL: salt, splitters, weighted, ...) is no field's name
+    from .lexrules import id_rule
+    L_ = ctx.lexicon(ctx.main.name)
+    idi_ = id_rule(ctx)
+    bound = {nme: how for nme, how in bound.items() if L_.select(nme) == (idi_, len(nme))}
     for nme, how in sorted(bound.items()):
         ctx.rep.bad(rid, base + f"[generated local {nme}]", f"a field named `{nme}` is overwritten by {how} of the same name inside the "
                     f"generated function before it is used{': ' + consequence if consequence else ''}",
@@ -1016,7 +1021,9 @@ def rule_ident_positions(ctx: Ctx, rid="C07.IDENT-POSITIONS"):
         # the annotations of a module-level function are evaluated at module level, where no field is bound: a field of the same
         # name shadows nothing there
         outer_ann = set()
-        for st in o.tree.body:
+        postponed = any(isinstance(st, ast.ImportFrom) and st.module == "__future__" and any(a.name == "annotations" for a in st.names)
+                        for st in o.tree.body)
+        for st in (ast.walk(o.tree) if postponed else o.tree.body):      # postponed annotations are never evaluated, anywhere
             if isinstance(st, ast.FunctionDef):
                 anns = [a.annotation for a in st.args.posonlyargs + st.args.args + st.args.kwonlyargs + [st.args.vararg, st.args.kwarg]
                         if a is not None and a.annotation is not None] + ([st.returns] if st.returns is not None else [])
